@@ -510,7 +510,7 @@ def assignment_cases(text: str):
 
 def block_cases(text: str):
     """[(physical lines of the body of a headed expressions block, [(name, expression)] as Lark reads the block)] for every headed
-    block of a text Lark accepts in which every assignment stands on one line of its own (no continuation lines)"""
+    block of a text Lark accepts (ASCII only; the caller asks the model which of them are inside its line model)"""
     import lark
 
     global _RAW_PARSER
@@ -537,9 +537,8 @@ def block_cases(text: str):
         nl = text.find("\n", end - 1) if end > 0 and text[end - 1] != "\n" else end - 1
         body = text[start + 1: (nl if nl >= 0 else len(text))]
         lines = [ln.rstrip("\r") for ln in body.split("\n")]
-        code_lines = [ln for ln in lines if ln.strip() and not ln.lstrip(" \t\f\r").startswith("#")]
         exp = []
-        ok = len(code_lines) == len(asg) and all(ord(ch) < 128 for ch in body)
+        ok = all(ord(ch) < 128 for ch in body)
         for a_ in asg:
             try:
                 w = tree_to_sx(a_.children[1])
